@@ -21,7 +21,9 @@ EXPLANATION = (
     "hint has exactly two writer functions, and in each the metadata file write dominates the pointer write; in "
     "_commit_file_ops manifests -> manifest list -> create_snapshot is the only order; (R3) the language of "
     "temp-file names is disjoint from the recovery regex (regex AST via re._parser: anchored, first literal 'v'), "
-    "and recovery only accepts names that match it.")
+    "and recovery only accepts names that match it. Also: (R4) the collector's delete guard (shared with C05.R3) - a "
+    "later collection removes only unreachable, unprotected, old files; (R5) a writer that died while holding the S3 "
+    "lock does not wedge the table: taking over the expired lock IS acquiring it (shared with C19.R3).")
 NOT_DECIDED = ("the reopen-and-compare statement over every crash point; atomicity of os.replace / PUT; that a "
                "later collection removes only leftovers")
 
